@@ -5,6 +5,7 @@ CONSTANTS Callers = {c1, c2}
  MaxAtt = 2
  FreshKey = FALSE
  MaxJunk = 0
+ MaxClose = 0
  Kinds = {"obj", "vec"}
  Dev = {"HintKeyedByServerId"}
 INVARIANTS WireIdsIncrease SeqNoRules OwnResult TypedVector LoopAlive AcceptedNeverResent SaltPersisted NoStallNotify NoStallDeliver AckedAll
